@@ -102,6 +102,7 @@ def payload(m, names, point_order, point, creation_order):
 
 
 def check(stats, m, names, point, orders, sub="reproducible", seeds=None):
+    m = safe(m)
     stats.case()
     w = workers_for(stats, seeds)
     case = make_case(sub, m, point, names=names, orders=orders, hash_seeds=list(w.seeds))
